@@ -119,6 +119,18 @@ DiagVarPos(S, doc) ==
                             IN {c \o ":" \o why : c \in UsageCtxOf(S, doc, doc.ops[i], u)}
                        ELSE {} : j \in DOMAIN doc.ops[i].vars} : u \in OpUsages(S, doc, doc.ops[i])} : i \in DOMAIN doc.ops}
 
+\* feature of a VALID document (naming of a rejected valid operation): a nullable variable without a non-null default sits in a
+\* Non-Null input-field / argument position that is allowed only because the location has a default value (5.8.5)
+AllUsagesCtx(S, doc) ==
+  LET sites == {FieldArgSite(S, it) : it \in FieldItems(S, doc)} \cup DirectiveArgSites(S, doc)
+  IN UNION {UNION {IF site.args[i].name \in DOMAIN site.defs
+                   THEN ValueUsagesCtx(S, site.defs[site.args[i].name].type, site.args[i].value, site.defs[site.args[i].name].def # Absent, "arg")
+                   ELSE {} : i \in DOMAIN site.args} : site \in sites}
+LocationDefaultFeatures(S, doc) ==
+  {"location-default@" \o u.ctx : u \in {w \in AllUsagesCtx(S, doc) :
+      IsNonNull(w.type) /\ w.locDef /\ \E i \in DOMAIN doc.ops : \E j \in DOMAIN doc.ops[i].vars :
+         doc.ops[i].vars[j].name = w.name /\ ~IsNonNull(doc.ops[i].vars[j].type) /\ doc.ops[i].vars[j].def \in {Absent, VNull}}}
+
 DiagVarDefined(S, doc) ==
   UNION {LET undefined == OpVarUses(doc, doc.ops[i]) \ Range(Names(doc.ops[i].vars))
              typed == {u.name : u \in OpUsages(S, doc, doc.ops[i])}
